@@ -7,6 +7,9 @@ import (
 
 	"github.com/trustbloc/sidetree-go/pkg/commitment"
 	"github.com/trustbloc/sidetree-go/pkg/jws"
+	"github.com/trustbloc/sidetree-go/pkg/vdr/sidetreelongform/sidetree"
+	"github.com/trustbloc/sidetree-go/pkg/vdr/sidetreelongform/sidetree/option/recovery"
+	"github.com/trustbloc/sidetree-go/pkg/vdr/sidetreelongform/sidetree/option/update"
 	"github.com/trustbloc/sidetree-go/pkg/versions/1_0/client"
 
 	"verif/sim/core"
@@ -14,6 +17,28 @@ import (
 )
 
 // clientFriendlyPatches draws at most one patch per add/remove action (what the Sidetree client can express).
+// stripJWKExtras removes extra JWK members: keys handed to the Sidetree client are built from crypto keys.
+func stripJWKExtras(v any) any {
+	switch x := v.(type) {
+	case map[string]any:
+		if k, ok := x["$key"]; ok {
+			return map[string]any{"$key": k}
+		}
+		out := make(map[string]any, len(x))
+		for n, e := range x {
+			out[n] = stripJWKExtras(e)
+		}
+		return out
+	case []any:
+		out := make([]any, len(x))
+		for i, e := range x {
+			out[i] = stripJWKExtras(e)
+		}
+		return out
+	}
+	return v
+}
+
 func clientFriendlyPatches(r *core.RNG, pool *Pool, kind ref.OpKind) []any {
 	actions := []string{"add-public-keys", "add-services", "add-also-known-as"}
 	if kind == ref.Update {
@@ -24,7 +49,7 @@ func clientFriendlyPatches(r *core.RNG, pool *Pool, kind ref.OpKind) []any {
 	var out []any
 	for _, a := range actions {
 		var other []string
-		out = append(out, genPatches(r, pool, &Swarm{Patches: []string{a}}, 1, &other)[0])
+		out = append(out, stripJWKExtras(genPatches(r, pool, &Swarm{Patches: []string{a}}, 1, &other)[0]))
 	}
 	return out
 }
@@ -109,6 +134,10 @@ func GenLifecycle(prop string, seed uint64, variant int, pool *Pool) *Plan {
 			}
 		}
 		st.Patches = didGoSafe(st.Patches).([]any)
+		if kind == ref.Create {
+			// create replies are parsed with did-go, which insists on well-formed standard JWK members (x5c ...)
+			st.Patches = stripJWKExtras(st.Patches).([]any)
+		}
 		if _, isStr := st.Origin.(string); kind == ref.Create && st.HasOrigin && !isStr {
 			// did-go's resolution metadata (used to parse create replies) types the anchor origin as a string
 			st.Origin, st.HasOrigin = "https://anchor.example/origin", true
@@ -210,6 +239,45 @@ func (w *World) builderRefusals() {
 	_, err = client.NewUpdateRequest(&client.UpdateRequestInfo{DidSuffix: "s", Patches: p, UpdateCommitment: c2, UpdateKey: j1, MultihashCode: alg,
 		Signer: extraHeaderSigner{signer}, RevealValue: rv1})
 	expectErr("update with an extra protected header", err)
+}
+
+// clientRefusals probes the Sidetree client with a re-used key as next commitment, with the same and with a switched
+// hash algorithm: it must refuse before anything is sent.
+func (w *World) clientRefusals() {
+	for _, t := range []KeyType{Ed25519, P256} {
+		key := w.Pool.Get(w.Pool.ByType[t][0])
+		other := w.Pool.Get(w.Pool.ByType[t][1])
+		jwk, err := libJWK(key, "")
+		if err != nil {
+			continue
+		}
+		signer := &apiSigner{lib: libSigner(key, key.Type.Alg(), ""), jwk: jwk}
+		for _, algs := range [][2]uint{{ref.SHA256, ref.SHA256}, {ref.SHA256, ref.SHA512}, {ref.SHA512, ref.SHA256}} {
+			committed, requested := algs[0], algs[1]
+			current := ref.Commitment(committed, key.RefJWK(""))
+			sent := 0
+			c := sidetree.New(sidetree.WithSidetreeOperationRequestFnc(func(req []byte, _ sidetree.GetEndpointsFunc) ([]byte, error) {
+				sent++
+				return []byte("{}"), nil
+			}))
+			ep := func(bool) ([]string, error) { return []string{"http://node.sim/operations"}, nil }
+			did := w.Plan.Swarm.Namespace + ":" + ref.HashBytes(ref.SHA256, []byte("probe"))
+			check := func(name string, err error) {
+				w.T.Count("builder_refusals_probed", 1)
+				if err == nil || sent > 0 {
+					w.violate("C08/client-accepted-bad-input", name, "sidetree.Client accepted %s (commitment algorithm %d, requested %d, key %s): err=%v, requests sent=%d",
+						name, committed, requested, t, err, sent)
+				}
+				sent = 0
+			}
+			check("recover re-using the revealed key as next recovery key", c.RecoverDID(did, recovery.WithSidetreeEndpoint(ep), recovery.WithMultiHashAlgorithm(requested),
+				recovery.WithSigner(signer), recovery.WithOperationCommitment(current), recovery.WithNextUpdatePublicKey(other.Public()),
+				recovery.WithNextRecoveryPublicKey(key.Public()), recovery.WithAlsoKnownAs("https://example.com/a")))
+			check("update re-using the revealed key as next update key", c.UpdateDID(did, update.WithSidetreeEndpoint(ep), update.WithMultiHashAlgorithm(requested),
+				update.WithSigner(signer), update.WithOperationCommitment(current), update.WithNextUpdatePublicKey(key.Public()),
+				update.WithAddAlsoKnownAs("https://example.com/a")))
+		}
+	}
 }
 
 type extraHeaderSigner struct{ client.Signer }
